@@ -192,6 +192,32 @@ SHAPES = ["single", "interleaved", "interleaved", "clears", "stale", "flags", "f
           "pow2", "long", "quirk", "perm"]
 
 
+NOISE_GRID = [(0.0, "float"), (0, "int"), (0.0, "np"), (1e-12, "float"), (0.25, "float"), (1, "int"),
+              (4.0, "np"), (0.0, "float")]
+OFFSETS = [2.0 ** 20, 2.0 ** 24, 2.0 ** 30, -(2.0 ** 27), 1.0e8, 0.0]
+
+
+def _apply_offsets(ops, off, m, count):
+    """add the design's per-objective offset to every well-shaped sample row of every add"""
+    for op in ops:
+        if op["op"] != "add":
+            continue
+        order = list(set(op["idx"])) if op["kind"] == "set" else list(op["idx"])
+        if len(order) != len(op["Y"]):
+            continue
+        op["Y"] = [[v + off[i][j] for j, v in enumerate(y)] if (0 <= i < count and len(y) == m) else y
+                   for i, y in zip(order, op["Y"])]
+
+
+def _noise_obj(case):
+    form = case.get("noise_form", "float")
+    if form == "int":
+        return int(case["noise"])
+    if form == "np":
+        return np.float64(case["noise"])
+    return float(case["noise"])
+
+
 def gen(ctx):
     rng = ctx.rng
     thorough = ctx.tier == "thorough"
@@ -200,12 +226,20 @@ def gen(ctx):
         m = rng.choice([1, 2, 2, 3, 4])
         count = rng.randint(1, 8) if shape != "long" else rng.randint(2, 12 if thorough else 6)
         p = rng.choice([0, 1, 2, 3])
-        noise = rng.randint(1, 32) / 16.0
-        base = {"m": m, "count": count, "noise": noise, "shape": shape,
+        noise, noise_form = rng.randint(1, 32) / 16.0, "float"
+        if k % 3 == 0:      # configuration grid incl. the noise-free setting and int / numpy-scalar forms
+            noise, noise_form = NOISE_GRID[(k // 3) % len(NOISE_GRID)]
+        base = {"m": m, "count": count, "noise": noise, "noise_form": noise_form, "shape": shape,
                 "tm": True, "tv": True, "y1d": bool(m == 1 and rng.random() < 0.3)}
+        off = None
+        if k % 4 == 1:      # large common offset per (design, objective), small exactly representable spread
+            off = [[rng.choice(OFFSETS) for _ in range(m)] for _ in range(count)]
+            base["offsets"] = True
         if shape == "perm":
             n = rng.randint(2, 16)
             pairs = [[rng.randrange(count), [_val(rng, p) for _ in range(m)]] for _ in range(n)]
+            if off is not None:
+                pairs = [[i, [v + off[i][j] for j, v in enumerate(y)]] for i, y in pairs]
             perm = list(range(n))
             rng.shuffle(perm)
 
@@ -226,6 +260,8 @@ def gen(ctx):
         ops += _final(count, rng)
         if shape in ("flags", "stale") and rng.random() < 0.5:
             ops += [{"op": "flags", "tm": True, "tv": True}] + _final(count)
+        if off is not None:
+            _apply_offsets(ops, off, m, count)
         base.update({"kind": "hist", "ops": ops})
         yield base
 
@@ -327,7 +363,8 @@ def _execute_raw(ctx, case, ops, tag, scrub, mutate):
 
     m, count, noise = case["m"], case["count"], case["noise"]
     try:
-        model = EmpiricalMeanVarModel(1, m, noise, count, track_means=case["tm"], track_variances=case["tv"])
+        model = EmpiricalMeanVarModel(1, m, _noise_obj(case), count, track_means=case["tm"],
+                                      track_variances=case["tv"])
     except Exception as e:
         ctx.violation("init-crash:" + core.exc_key(e), "constructor raised", case)
         return None
